@@ -41,6 +41,9 @@ def families(tier):
         {'name': 'A4', 'params': {'hist': 'BMX', 'kinds': ['is_dir', 'list_dir'], 'roles': ['o'], 'targets': ['o/d/g'], 'modes': ['ok'],
                                   'mut_paths': ['o/d', 'o/d/g']}, 'weight': 2},
         {'name': 'A8', 'params': {'hist': 'BX', 'kinds': ['is_dir']}, 'weight': 2},
+        # three and four new directory levels below the output root: a fault at the deeper mkdirs
+        {'name': 'A3', 'params': {'hist': 'X', 'kinds': ['is_dir'], 'roles': ['o'], 'targets': ['o/d/e/h', 'o/d/e/i/j'], 'modes': ['ok'],
+                                  'universe': ['o', 'o/d']}, 'weight': 1},
         {'name': 'A9', 'params': {'hist': 'BMX', 'kinds': ['is_dir', 'list_dir'], 'targets': ['o/d/g'], 'modes': ['ok'],
                                   'mut_paths': ['in/x'], 'mut_kinds': ['none', 'write']}, 'weight': 2},
         {'name': 'N3', 'params': {'hist': 'BMX', 'universe': UN3, 'kinds': ['is_dir'], 'roles': ['o'], 'bf_modes': ['ok'], 'sb_modes': ['ok'],
